@@ -50,7 +50,39 @@ func genC14(r *simrt.Rand, tier string) (Cfg, *Program) {
 	if r.Chance(85) {
 		pf.NQ = [2]int{1, 1}
 	}
+	concurrentFirstBind := r.Chance(8)
+	if concurrentFirstBind {
+		pf.NQ = [2]int{0, 0}
+	}
 	c, p := generate(r, pf)
+	if concurrentFirstBind {
+		// the first Bind of a worker that has never run, next to a lifecycle call from another
+		// goroutine that such a worker refuses (or that starts it as well): whichever comes
+		// first, a worker with a bound queue is not Initiated any more afterwards
+		for t, nt := 0, 1+r.Intn(2); t < nt; t++ {
+			var ops []Op
+			for k := r.Intn(4); k > 0; k-- {
+				ops = append(ops, Op{K: opYield})
+			}
+			for k := 1 + r.Intn(3); k > 0; k-- {
+				ops = append(ops, Op{K: pickW(r, []wop{{opStop, 4}, {opWaitAndStop, 2}, {opPauseAndWait, 1}, {opPause, 1}, {opResume, 1}})})
+			}
+			p.Tasks = append(p.Tasks, ops)
+		}
+		var ops []Op
+		for k := r.Intn(4); k > 0; k-- {
+			ops = append(ops, Op{K: opYield})
+		}
+		ops = append(ops, Op{K: opBind, A: pick(r, []int{qkStd, qkPrio})})
+		for k := r.Intn(3); k > 0; k-- {
+			n := len(p.Subs)
+			p.Subs = append(p.Subs, SubT{N: n, Q: 0, Batch: -1})
+			ops = append(ops, Op{K: opAdd, Q: 0, Subs: []int{n}})
+		}
+		p.Tasks = append(p.Tasks, ops)
+		p.Subs = append(p.Subs, SubT{N: len(p.Subs), Q: 0, Batch: -1})
+		return c, p
+	}
 	// controller: the call sequence
 	n := 1 + r.Intn(4)
 	if r.Chance(40) {
@@ -220,6 +252,16 @@ func judgeC14(j *judgeCtx) {
 		if c.K == opSample && c.Arg == 9 && c.AtRest {
 			st := j.stateAt(c.Inv)
 			if st == lsU {
+				// whatever else went on at the same time: binding a queue starts a worker that has
+				// never run, and no call takes a worker back to Initiated for longer than a Restart
+				if c.Str == "Initiated" {
+					for _, b := range j.r.calls {
+						if b.K == opBind && b.Ret != 0 && b.Ret < c.Inv {
+							j.add("C14.b", c.Ret, "Status() = %q at a quiescent point although a queue was bound at [%d,%d]: a worker with a bound queue has been started (%s)", c.Str, b.Inv, b.Ret, j.lifeHistory(c.Inv))
+							break
+						}
+					}
+				}
 				continue
 			}
 			want := map[byte]string{lsI: "Initiated", lsR: "Running", lsP: "Paused", lsS: "Stopped"}[st]
